@@ -1,7 +1,285 @@
+(* C10/Props.v -- the property theorems, nothing else.
+   Rendering is pure: colours never change layout and output has no memory.
+
+   Vocabulary (C10/Model.v, Lemmas*.v):
+     world                 configurations (syntax map, registered classes, palette cache), a heap of
+                           palette objects with identities, the per-class no_color slots, the global
+                           configuration, the enum cell caches, the HCommand objects
+     op / step / run_ops   a history: NewConf, Drop, Register (add_new_items), SetGlobal, Render,
+                           NewH (HCommand()), Help; every Render / NewH carries the identities the
+                           allocator will hand out (ANY list: an identity of a live object is refused)
+     objspec               what an object prints: lines of items naming the palette accessor that
+                           colours each text (taken from the implementation by the harness)
+     reach fts w           w is reached from the initial world by a history whose operations meet
+                           op_ok: user syntax items in the modelled colour language, objects without
+                           aliasing enum values (obj_ok), no palette requested with synced=True
+     inv                   the four cache-coherence invariants (LemmasInv.v)
+     plain_lines / pure_lines   the rendering as a pure function of colours (LemmasPure.v)
+     eko                   = enum_key_is_object, read from ak/ppobj.py on every run *)
 From Coq Require Import ZArith List Bool.
-From AK Require Import Common.Err C10.Sgr C10.Base gen.C10_Consts C10.Model C10.Lemmas.
+From AK Require Import Common.Sx Common.Err C10.Sgr C10.SgrLemmas C10.Base gen.C10_Consts C10.Model
+  C10.Lemmas C10.LemmasInv C10.LemmasRun C10.LemmasPure C10.LemmasTop C10.LemmasWit.
 Import ListNotations.
 Open Scope Z_scope.
-Theorem enum_cache_keyed_by_object : enum_key_is_object = true.
-Proof. exact enum_key_object. Qed.
-Print Assumptions enum_cache_keyed_by_object.
+
+Notation eko := enum_key_is_object.
+
+Definition reach (fts : list (Z * ftdef)) (w : world) : Prop :=
+  exists ops outs, Forall op_ok ops /\ run_ops eko fts w0 ops = Ok (w, outs).
+
+(* ---- what the proofs need from the source (regenerated on every run) ---- *)
+(* the enum cell cache is keyed by the palette object (not by id(palette)); a new
+   syntax id empties the palette cache of the configuration *)
+Theorem source_facts : enum_key_is_object = true /\ reset_cache_on_new = true.
+Proof. exact (conj enum_key_object reset_on_new). Qed.
+Print Assumptions source_facts.
+
+(* ---- the caches stay coherent along every history ---- *)
+(* inv = no stale enum cell, every cached palette carries the colours of its
+   configuration's current map, no_color palettes have no colours, every colour
+   prefix is a well-formed SGR sequence -- for every operation sequence and
+   every allocation oracle *)
+Theorem caches_coherent : forall fts w, reach fts w -> inv fts w.
+Proof. exact inv_reachable. Qed.
+Print Assumptions caches_coherent.
+
+(* the enum cell cache is transparent: what it returns is what the palette would
+   produce now (the repaired defect enum-cache-id-reuse) *)
+Theorem enum_cache_transparent : forall fts w ft e v modi,
+  reach fts w ->
+  snd (enum_cell fts w ft e v v modi) = pure_cell fts (p_colors (pal_of w e)) ft v modi.
+Proof.
+  intros fts w ft e v modi H. destruct (inv_reachable fts w H) as (_ & _ & He & _).
+  exact (proj1 (enum_cell_pure fts w ft e v modi He)).
+Qed.
+Print Assumptions enum_cache_transparent.
+
+(* ---- cache_reset ---- *)
+(* one configuration: register_in_colors_conf / add_new_items either leave map and
+   cache alone or leave an empty cache *)
+Theorem cache_reset_conf : forall fuel cf K items,
+  ((c_smap (fst (register_raw fuel cf K)) = c_smap cf /\ c_cache (fst (register_raw fuel cf K)) = c_cache cf)
+   \/ c_cache (fst (register_raw fuel cf K)) = []) /\
+  ((c_smap (fst (add_raw cf items)) = c_smap cf /\ c_cache (fst (add_raw cf items)) = c_cache cf)
+   \/ c_cache (fst (add_raw cf items)) = []).
+Proof. intros. split; [apply register_raw_reset|apply add_raw_reset]. Qed.
+Print Assumptions cache_reset_conf.
+
+(* a palette obtained from a configuration after any history (registrations
+   included) reflects the configuration's current map *)
+Theorem cache_reset : forall fts w c K w' p,
+  reach fts w -> class_call eko w (Some c) false K false = Ok (w', p) ->
+  p_colors (pal_of w' p) = local_colors (conf_of w' c) K false /\ p_conf (pal_of w' p) = c.
+Proof. intros fts w c K w' p H. exact (cache_reset_world fts w c K w' p (inv_reachable fts w H)). Qed.
+Print Assumptions cache_reset.
+
+(* ---- whole_eq_lines ---- *)
+(* CHText("\n").join(lines) printed = the printed lines joined with "\n" *)
+Theorem whole_eq_lines_chunks : forall ls, str_of (join_chunks ls) = join_lines (map str_of ls).
+Proof. exact whole_eq_lines_l. Qed.
+Print Assumptions whole_eq_lines_chunks.
+
+(* a result consumed whole, by line, or both in either order: one text *)
+Theorem whole_eq_lines : forall fts w obj copt nc pa mode ids w' outs t1 t2,
+  reach fts w -> obj_ok obj -> pa <> PSynced ->
+  step eko fts w (ORender obj copt nc pa mode ids) = Ok (w', outs) ->
+  In t1 outs -> In t2 outs -> t1 = t2.
+Proof. intros fts w obj copt nc pa mode ids w' outs t1 t2 H. exact (render_texts_equal fts _ _ _ _ _ _ _ _ _ _ _ (inv_reachable fts w H)). Qed.
+Print Assumptions whole_eq_lines.
+
+(* ---- strip_layout ---- *)
+(* any two chunk lists with the same texts, one with well-formed colour prefixes and
+   ESC-free texts, the other uncoloured *)
+Theorem strip_layout_chunks : forall col plain,
+  Forall chunk_ok col -> all_plain plain -> same_texts col plain ->
+  strip (str_of col) = str_of plain /\ no_esc (str_of plain).
+Proof. exact strip_layout_l. Qed.
+Print Assumptions strip_layout_chunks.
+
+(* every rendering of an object (any history, configuration, way of passing the
+   palette and of consuming the result) with the escape sequences removed is
+   the no_color rendering (of any other history), which has no ESC *)
+Theorem strip_layout : forall fts w1 w2 obj copt1 copt2 nc pa1 pa2 mode1 mode2 ids1 ids2 w1' w2' outs1 outs2 t1 t2,
+  reach fts w1 -> reach fts w2 -> obj_ok obj -> obj_noesc fts obj -> pa1 <> PSynced -> pa2 <> PSynced ->
+  step eko fts w1 (ORender obj copt1 nc pa1 mode1 ids1) = Ok (w1', outs1) ->
+  step eko fts w2 (ORender obj copt2 true pa2 mode2 ids2) = Ok (w2', outs2) ->
+  In t1 outs1 -> In t2 outs2 -> strip t1 = t2 /\ no_esc t2.
+Proof.
+  intros fts w1 w2 obj copt1 copt2 nc pa1 pa2 mode1 mode2 ids1 ids2 w1' w2' outs1 outs2 t1 t2 H1 H2.
+  exact (render_strip_pair fts _ _ _ _ _ _ _ _ _ _ _ _ _ _ _ _ _ _ (inv_reachable fts w1 H1) (inv_reachable fts w2 H2)).
+Qed.
+Print Assumptions strip_layout.
+
+(* ---- history_independent ---- *)
+(* the full statement: a rendering in any reachable world equals the rendering of
+   the same object under a fresh configuration with the same user content in a
+   fresh process *)
+Definition history_independent_statement : Prop :=
+  forall fts ops w outs obj c ct nc mode ids w' t ids' wf outsf,
+    run_ops eko fts w0 ops = Ok (w, outs) ->
+    zfind c (content ops) = Some ct ->
+    step eko fts w (ORender obj (Some c) nc PNone mode ids) = Ok (w', t) ->
+    run_ops eko fts w0 (fresh_ops c ct ++ [ORender obj (Some c) nc PNone mode ids']) = Ok (wf, outsf) ->
+    last outsf [] = t.
+
+(* proved, no_color: for every history, every object, every way of passing the
+   palette, every allocation oracle -- closed form and history form *)
+Theorem no_color_closed_form : forall fts w obj copt pa mode ids w' outs,
+  reach fts w -> obj_ok obj -> pa <> PSynced ->
+  step eko fts w (ORender obj copt true pa mode ids) = Ok (w', outs) ->
+  outs = texts_of mode (plain_lines fts (o_lines obj)).
+Proof. intros fts w obj copt pa mode ids w' outs H. exact (render_no_color fts _ _ _ _ _ _ _ _ (inv_reachable fts w H)). Qed.
+Print Assumptions no_color_closed_form.
+
+Theorem history_independent_no_color : forall fts ops w outs obj copt pa mode ids w' t ops' pa' copt' ids' wf outsf,
+  Forall op_ok ops -> run_ops eko fts w0 ops = Ok (w, outs) ->
+  obj_ok obj -> pa <> PSynced -> pa' <> PSynced ->
+  step eko fts w (ORender obj copt true pa mode ids) = Ok (w', t) ->
+  Forall op_ok ops' ->
+  run_ops eko fts w0 (ops' ++ [ORender obj copt' true pa' mode ids']) = Ok (wf, outsf) ->
+  last outsf [] = t.
+Proof. exact hist_no_color. Qed.
+Print Assumptions history_independent_no_color.
+
+(* proved, colour, objects printed through ONE palette (pretty-printer, git history
+   report lines): the text is a closed formula of the object and of the state
+   (no_color flag, syntax map, registered classes) of the configuration in
+   force -- palette caches, identities, other configurations, earlier
+   renderings do not enter *)
+Theorem single_palette_closed_form : forall fts w obj copt pa mode ids w' outs,
+  reach fts w -> obj_ok obj -> simple_obj obj -> pa <> PSynced ->
+  step eko fts w (ORender obj copt false pa mode ids) = Ok (w', outs) ->
+  outs = texts_of mode (pure_lines fts
+           (top_colors (match pa with PObj c => conf_of w c | _ => conf_in_force w copt end) (o_cls obj))
+           (fun _ => []) (o_lines obj)).
+Proof. intros fts w obj copt pa mode ids w' outs H. exact (render_simple_colour fts _ _ _ _ _ _ _ _ (inv_reachable fts w H)). Qed.
+Print Assumptions single_palette_closed_form.
+
+Theorem history_independent_single_palette : forall fts ops1 w1 o1 ops2 w2 o2 obj copt mode ids1 ids2 w1' t1 w2' t2,
+  Forall op_ok ops1 -> run_ops eko fts w0 ops1 = Ok (w1, o1) ->
+  Forall op_ok ops2 -> run_ops eko fts w0 ops2 = Ok (w2, o2) ->
+  obj_ok obj -> simple_obj obj ->
+  core (conf_in_force w1 copt) = core (conf_in_force w2 copt) ->
+  step eko fts w1 (ORender obj copt false PNone mode ids1) = Ok (w1', t1) ->
+  step eko fts w2 (ORender obj copt false PNone mode ids2) = Ok (w2', t2) ->
+  t1 = t2.
+Proof. exact hist_single_palette. Qed.
+Print Assumptions history_independent_single_palette.
+
+(* PARTIAL, colour, compound objects (tables, record formatters): the palette of the
+   object has the colours of the configuration in force and every enum cell is
+   coloured by its current palette (enum_cache_transparent), but the colours of
+   the sub-palettes (read when each was first requested) are only shown to be
+   well-formed, not given in closed form *)
+Theorem history_independent_compound_partial : forall fts w obj copt mode ids w' outs,
+  reach fts w -> obj_ok obj ->
+  step eko fts w (ORender obj copt false PNone mode ids) = Ok (w', outs) ->
+  exists subc, (forall K, cwf (subc K)) /\
+    outs = texts_of mode (pure_lines fts (top_colors (conf_in_force w copt) (o_cls obj)) subc (o_lines obj)).
+Proof. intros fts w obj copt mode ids w' outs H. exact (render_colour_top fts _ _ _ _ _ _ _ (inv_reachable fts w H)). Qed.
+Print Assumptions history_independent_compound_partial.
+
+(* REFUTED on the faithful model (open finding late-registered-parent): a
+   configuration entry whose parent id is registered later by a sub-palette
+   class; the first rendering of a table uses a palette built before that *)
+Theorem history_independent_refuted :
+  exists fts ops w outs obj c ct nc mode ids w' t ids' wf outsf,
+    Forall op_ok ops /\ obj_ok obj /\
+    run_ops eko fts w0 ops = Ok (w, outs) /\
+    zfind c (content ops) = Some ct /\
+    step eko fts w (ORender obj (Some c) nc PNone mode ids) = Ok (w', t) /\
+    run_ops eko fts w0 (fresh_ops c ct ++ [ORender obj (Some c) nc PNone mode ids']) = Ok (wf, outsf) /\
+    last outsf [] <> t.
+Proof.
+  exists [], wit_late_ops. eexists. eexists. exists wit_tbl, 0. eexists. exists false, 0, [3; 4]. eexists. eexists.
+  exists [1; 2]. eexists. eexists.
+  split; [repeat constructor; discriminate|]. split; [repeat constructor|].
+  split; [vm_compute; reflexivity|]. split; [vm_compute; reflexivity|].
+  split; [vm_compute; reflexivity|]. split; [vm_compute; reflexivity|].
+  vm_compute. discriminate.
+Qed.
+Print Assumptions history_independent_refuted.
+
+Theorem history_independent_statement_false : ~ history_independent_statement.
+Proof.
+  intros H.
+  destruct history_independent_refuted as (fts & ops & w & outs & obj & c & ct & nc & mode & ids & w' & t & ids' & wf & outsf & _ & _ & A & B & C & D & E).
+  exact (E (H _ _ _ _ _ _ _ _ _ _ _ _ _ _ _ A B C D)).
+Qed.
+Print Assumptions history_independent_statement_false.
+
+(* REFUTED outside the guard obj_ok (open finding enum-cache-equal-keys): the literals
+   1 and True of one enum field type share a cache entry *)
+Theorem enum_alias_refuted :
+  exists fts ops w outs obj c ct nc mode ids w' t ids' wf outsf,
+    run_ops eko fts w0 ops = Ok (w, outs) /\
+    zfind c (content ops) = Some ct /\
+    step eko fts w (ORender obj (Some c) nc PNone mode ids) = Ok (w', t) /\
+    run_ops eko fts w0 (fresh_ops c ct ++ [ORender obj (Some c) nc PNone mode ids']) = Ok (wf, outsf) /\
+    last outsf [] <> t.
+Proof.
+  exists wit_ft, wit_alias_ops. eexists. eexists. exists (wit_etbl 1), 0. eexists. exists false, 0, [3; 4]. eexists. eexists.
+  exists [1; 2]. eexists. eexists.
+  split; [vm_compute; reflexivity|]. split; [vm_compute; reflexivity|].
+  split; [vm_compute; reflexivity|]. split; [vm_compute; reflexivity|].
+  vm_compute. discriminate.
+Qed.
+Print Assumptions enum_alias_refuted.
+
+(* REFUTED for console help (open finding hdoc-captured-palette): an HCommand
+   keeps the palette of the global configuration it was constructed under *)
+Theorem help_captured_refuted :
+  exists obj outs1 outs2,
+    outs_of (run_ops eko [] w0 [ONewH 0 [1]; ONewConf 0 true []; OSetGlobal (Some 0); OHelp 0 obj]) = Some outs1 /\
+    outs_of (run_ops eko [] w0 [ONewConf 0 true []; OSetGlobal (Some 0); ONewH 0 [1]; OHelp 0 obj]) = Some outs2 /\
+    last outs1 [] <> last outs2 [] /\ exists t, In t (last outs1 []) /\ In 27 t.
+Proof.
+  exists wit_hobj. eexists. eexists. split; [vm_compute; reflexivity|]. split; [vm_compute; reflexivity|].
+  split; [vm_compute; discriminate|]. eexists. split; [left; reflexivity|]. vm_compute. auto.
+Qed.
+Print Assumptions help_captured_refuted.
+
+(* the repaired defect: in the model with the cache keyed by id(palette) the text
+   depends on the identities the allocator hands out (render under A, drop A,
+   create B, render with A's identities) *)
+Theorem id_keyed_cache_refuted :
+  exists outs1 outs2,
+    outs_of (run_ops false wit_ft1 w0 (wit_id_ops ++ [ORender (wit_etbl 0) (Some 1) false PNone 0 [1; 2]])) = Some outs1 /\
+    outs_of (run_ops false wit_ft1 w0 (wit_id_ops ++ [ORender (wit_etbl 0) (Some 1) false PNone 0 [3; 4]])) = Some outs2 /\
+    last outs1 [] <> last outs2 [].
+Proof. eexists. eexists. split; [vm_compute; reflexivity|]. split; [vm_compute; reflexivity|]. vm_compute. discriminate. Qed.
+Print Assumptions id_keyed_cache_refuted.
+
+(* ---- the hypotheses are satisfiable on non-trivial values ---- *)
+(* a guarded history with an enum table rendered under two configurations, one
+   dropped in between, identities re-used where CPython allows it; it produces
+   coloured text, and its objects satisfy obj_ok / obj_noesc *)
+Example guards_satisfiable :
+  let ops := wit_id_ops ++ [ORender (wit_etbl 0) (Some 1) false PNone 2 [1; 4]; ORender (wit_etbl 0) (Some 1) true PNone 3 [5; 6]] in
+  Forall op_ok ops /\ obj_ok (wit_etbl 0) /\ obj_noesc wit_ft1 (wit_etbl 0) /\
+  exists w outs, run_ops eko wit_ft1 w0 ops = Ok (w, outs) /\
+    nth 4 outs [] = [[27; 91; 51; 52; 109; 65; 27; 91; 48; 109]; [27; 91; 51; 52; 109; 65; 27; 91; 48; 109]] /\
+    nth 5 outs [] = [[65]; [65]].
+Proof.
+  cbv zeta. split; [repeat constructor; discriminate|]. split; [repeat constructor|].
+  split; [repeat constructor; vm_compute; intros [H|[]]; discriminate|].
+  eexists. eexists. split; [vm_compute; reflexivity|]. split; reflexivity.
+Qed.
+Print Assumptions guards_satisfiable.
+
+(* two different histories that bring a configuration into the same state: the
+   hypothesis of history_independent_single_palette *)
+Example same_core_satisfiable :
+  let j := mkObj pp_cls [] [[IChunk None 16 [55]; IPlain [44]]] in
+  let ops1 := [ONewConf 0 false [(19, mkDescr None (FCol 5) (Some true))]] in
+  let ops2 := [ONewConf 0 false [(19, mkDescr None (FCol 5) (Some true))]; ONewConf 1 false [];
+               ORender j (Some 0) false PNone 0 [1]; ORender j (Some 1) true PNone 1 [2]; ODrop 1] in
+  simple_obj j /\ obj_ok j /\
+  exists w1 o1 w2 o2, run_ops eko [] w0 ops1 = Ok (w1, o1) /\ run_ops eko [] w0 ops2 = Ok (w2, o2) /\
+    core (conf_in_force w1 (Some 0)) = core (conf_in_force w2 (Some 0)).
+Proof.
+  cbv zeta. split; [reflexivity|]. split; [repeat constructor|].
+  eexists. eexists. eexists. eexists. split; [vm_compute; reflexivity|]. split; [vm_compute; reflexivity|].
+  vm_compute. reflexivity.
+Qed.
+Print Assumptions same_core_satisfiable.
